@@ -45,6 +45,8 @@ CORPORA = {
     "custom": dict(model="MC_Custom", quick=dict(MaxSize=96), thorough=dict(MaxSize=96), profiles=DEV_REL, place="both"),
     "proto": dict(model="MC_Proto", quick=dict(Depth=3), thorough=dict(Depth=5), profiles=DEV_REL, place="end"),
     "big": dict(model="MC_Big", quick=dict(MaxPow=20), thorough=dict(MaxPow=21), profiles=DEV_REL, place="both"),
+    "mut": dict(kind="mutate", base=["fields", "getters", "dst", "sized", "efi", "elf", "fb", "rsdp", "str", "walk"],
+                quick=dict(count=1500), thorough=dict(count=60000), profiles=DEV_REL, place="both"),
     "load": dict(model="MC_Load", quick=dict(MaxT=72), thorough=dict(MaxT=160), profiles=DEV_REL, place="both"),
     "walk": dict(model="MC_Walk", quick=dict(MaxT=32), thorough=dict(MaxT=40), profiles=DEV_REL, place="both"),
 }
@@ -66,11 +68,11 @@ CHECKS = {
                 rule="TLC-judged: every interval end point +-2 of the three classification tables and structured values, each with 3 partner "
                      "values for the equality relations; all 256 framebuffer type bytes; native sweep of u32 values (stride 1 = all 2^32 in the "
                      "thorough tier) against the interval tables exported from the specification"),
-    "C15": dict(corpora=["custom", "dst", "sized", "hdst", "fields", "getters"],
+    "C15": dict(thorough_extra=["mut"], corpora=["custom", "dst", "sized", "hdst", "fields", "getters"],
                 rule="user-defined family (sized tags with 0..6 extra words; DST tails with element sizes 1,2,3,4,8,24 x fixed parts 8..24) "
                      "x all tag sizes 8..96 through the public get_tag; every built-in kind of both crates viewed at every declared size (variable-length kinds 0..base+3*elem+DstExtra, "
                      "header-tag kinds 0..40) and at its conformant size; non-trivial = casts that return a view"),
-    "C17": dict(corpora=["str", "ctor", "dst"],
+    "C17": dict(thorough_extra=["mut"], corpora=["str", "ctor", "dst"],
                 rule="parse: all strings of length <= MaxStr over a 10-byte alphabet (NUL, ASCII, pieces of 2/3/4-byte sequences, invalid bytes) "
                      "x every cut of the declared size x 3 string kinds; build: texts of length 0..MaxContent with and without trailing NUL"),
     "C06": dict(corpora=["builder"],
@@ -97,26 +99,26 @@ CHECKS = {
     "C13": dict(corpora=["find"],
                 rule="structural buffers: all (buffer length, magic position or none, stored header length) combinations around the "
                      "8192 window, a later second magic, misaligned buffers"),
-    "C18": dict(corpora=["efi"],
+    "C18": dict(thorough_extra=["mut"], corpora=["efi"],
                 rule="all (descriptor size 0..MaxD, version 0..2, map length 0..min(3d+9, LCap)); each with the environment plan "
                      "create / len / size_hint / next past the naive count / clone / Debug"),
-    "C19": dict(corpora=["elf"],
+    "C19": dict(thorough_extra=["mut"], corpora=["elf"],
                 rule="all (count 0..MaxN, entry size in ElfSizes, string-table index 0..n+1, section bytes in {0, n*es-1, n*es, n*es+8}, "
                      "raw-type rotation); names resolved through a string table mapped at a fixed external address"),
-    "C01": dict(corpora=["fields", "getters", "dst", "sized", "custom", "fb", "rsdp", "adv", "efi", "elf", "walk", "load"],
+    "C01": dict(corpora=["fields", "getters", "dst", "sized", "custom", "fb", "rsdp", "adv", "efi", "elf", "walk", "load", "mut"],
                 rule="union of the boot-information corpora (every kind, every declared size, all framebuffer type bytes, "
                      "all walks); every call of every session is checked for crash/hang and for extents inside the owning tag"),
-    "C04": dict(corpora=["fields", "getters", "fb", "rsdp"],
+    "C04": dict(thorough_extra=["mut"], corpora=["fields", "getters", "fb", "rsdp"],
                 rule="fields: every kind at its conformant size x 2 marker fills x 2 positions, every accessor; "
                      "getters: all sequences of <= MaxTags tags over 6 kinds (duplicates use different fills); fb: all 256 type bytes"),
-    "C05": dict(corpora=["dst", "fb", "hdst"],
+    "C05": dict(thorough_extra=["mut"], corpora=["dst", "fb", "hdst"],
                 rule="every variable-length kind x every declared size 0..base+3*elem+DstExtra and three sizes beyond the region, "
                      "marker bytes in padding and in the neighbouring tag"),
     "C02": dict(corpora=["load", "big"],
                 rule="cases = all (total size, reserved word, last-8-bytes type/size) in bounds + null pointer; "
                      "non-trivial = every case (each has a distinct specified outcome class or size); structural regions with total sizes "
                      "around every power of two from 128 bytes to 1 MiB (2 MiB thorough), end tag right / wrong"),
-    "C03": dict(corpora=["walk", "proto", "load"],
+    "C03": dict(thorough_extra=["mut"], corpora=["walk", "proto", "load"],
                 rule="cases = all lazily chosen header sequences (type in {0,3,99}, size 0..remaining+9) of regions up to MaxT; "
                      "each drained by a tag iterator, a mid-walk clone and the module iterator; histories: all interleavings of length Depth of "
                      "next/clone on two tag iterators, a clone slot, a module iterator and its clone over 8 representative regions"),
